@@ -926,7 +926,7 @@ fn main() {
                 run_case(&args, &report, cs);
             } else {
                 let shards = args.by_tier(32usize, 64);
-                let per = args.by_tier(600usize, 9000);
+                let per = args.by_tier(1200usize, 9000);
                 let a = args.clone();
                 let r = report.clone();
                 run_shards(&report, &args, shards, move |_i, s| {
